@@ -240,6 +240,13 @@ fn check_locate(cx: &StreamCx<'_>, ex: &Expect<'_>, o: usize, st: &mut Stats) ->
         None => fail!(format!("C29/locate/none/{}", role), info(json!({}))),
     };
     st.evals(1);
+    if std::env::var("VH_C29_MEASURE_RANGE").is_ok() && ex.style != "replay" {
+        let same = res.byte_range == ex.span;
+        st.class(&format!("measure/range{}span/{}/{}/type={}", if same { "==" } else { "!=" }, role, ex.style, res.value_type));
+        if !same {
+            st.sample(&format!("range!=span/{}/{}", role, ex.style), || info(json!({"located_range": [res.byte_range.0, res.byte_range.1]})));
+        }
+    }
     let expr = match catch(|| jq::parse_with_mode(&res.expression, ParserMode::Yq)) {
         Ok(Ok(e)) => e,
         Ok(Err(e)) => fail!(format!("C29/locate-expr/unparseable/{}", role), info(json!({"expression": res.expression, "error": e.to_string()}))),
@@ -544,6 +551,8 @@ fn check_cli(stream: &[Y], r: &gy::RenderedYaml, u: &mut Src, st: &mut Stats, pe
         st.discard();
         return Ok(());
     }
+    // (shape predicate of the open finding, read from the library's index of the same text)
+    let dense = YamlIndex::build(text).map_or(false, |i| !i.open_positions().is_compact());
     let file = cli::write_tmp("c29.yaml", text);
     let fname = file.to_string_lossy().to_string();
     let res = (|| -> Result<(), Fail> {
@@ -567,6 +576,9 @@ fn check_cli(stream: &[Y], r: &gy::RenderedYaml, u: &mut Src, st: &mut Stats, pe
             if loc.timed_out {
                 st.discard();
                 return Ok(());
+            }
+            if !loc.ok() && dense && loc.stderr_str().starts_with(&format!("Error: Could not locate position at offset {}", o)) {
+                fail!(OPEN_SHAPES[0], info(json!({"exit": loc.code, "stderr": loc.stderr_str().lines().next().unwrap_or("").to_string(), "open_positions_compact": false, "route": "cli"})));
             }
             if !loc.ok() {
                 fail!(format!("C29/cli/yq-locate-failed/{}", role), info(json!({"exit": loc.code, "stderr": loc.stderr_str().lines().next().unwrap_or("").to_string()})));
@@ -596,6 +608,7 @@ fn check_cli(stream: &[Y], r: &gy::RenderedYaml, u: &mut Src, st: &mut Stats, pe
                     }
                 }
                 Ok(v) => fail!(format!("C29/cli/at_offset/output-count/{}", role), info(json!({"program": prog, "outputs": v.len(), "documents": stream.len()}))),
+                Err(e) if dense && e.contains(&format!("no node at offset {}", o)) => fail!(OPEN_SHAPES[1], info(json!({"program": prog, "failure": e, "open_positions_compact": false, "route": "cli"}))),
                 Err(e) => fail!(format!("C29/cli/at_offset/failed/{}", role), info(json!({"program": prog, "failure": e}))),
             }
             st.evals(1);
@@ -685,11 +698,11 @@ pub fn run(cx: &mut Ctx) {
     }
 
     if cli::cli_available() {
-        let per_stream = 2;
+        let per_stream = 1;
         cx.check(
             "cli-sample",
-            "the same statement through the binary: `succinctly yq-locate --offset N FILE` prints the expression; `succinctly yq -s -o json EXPR FILE` must print the model value; `succinctly yq -o json 'at_offset(N)' FILE` must print the token's own value once per document; 2 random token offsets per generated stream",
-            Budget { quick: 150, thorough: 3_000, max_len: 3000 },
+            "the same statement through the binary: `succinctly yq-locate --offset N FILE` prints the expression; `succinctly yq -s -o json EXPR FILE` must print the model value; `succinctly yq -o json 'at_offset(N)' FILE` must print the token's own value once per document; 1 random token offset per generated stream",
+            Budget { quick: 100, thorough: 3_000, max_len: 3000 },
             |u, st| {
                 let (stream, r) = gen_case(u, &o);
                 st.describe(|| describe(&stream, &r));
